@@ -11,6 +11,7 @@ import (
 	"encoding/json"
 	"fmt"
 	"io"
+	"math"
 	"os"
 	"os/exec"
 	"path/filepath"
@@ -185,20 +186,45 @@ func drawReads(c *simkit.Choices) []int {
 }
 
 // shared inputs of one run: prepared once, handed to several tasks read-only
+// wrappedCell is the cell of the shared processing unfolder for model.Holder:
+// it contains model.Inner, for which tasks register different custom unfolders.
+type wrappedCell struct {
+	A model.Inner
+	L []model.Inner
+}
+
+// sharedHolderOption is ONE option value (a processing unfolder for
+// model.Holder) handed to the unfolders of several tasks, the way a program
+// keeps its options in a package-level variable.
+func sharedHolderOption() gotype.UnfoldOption {
+	return gotype.Unfolders(func(_ *model.Holder) (interface{}, func(*model.Holder, interface{}) error) {
+		cell := &wrappedCell{}
+		return cell, func(to *model.Holder, c interface{}) error {
+			wc, ok := c.(*wrappedCell)
+			if !ok {
+				return fmt.Errorf("shared option: foreign cell %T", c)
+			}
+			to.A, to.L = wc.A, wc.L
+			return nil
+		}
+	})
+}
+
 type shared struct {
+	holderOpt gotype.UnfoldOption
 	// fold-only values (inline interface / Folder / map fields): shared by the
 	// fold-encode operations of all tasks
 	foldVals  []interface{}
 	foldTypes []*model.TypeEntry
 	vals      []interface{}
 	types     []*model.TypeEntry
-	docs  [][]byte
-	fmts  []model.Format
-	dtype []*model.TypeEntry
+	docs      [][]byte
+	fmts      []model.Format
+	dtype     []*model.TypeEntry
 }
 
 func genShared(c *simkit.Choices) *shared {
-	s := &shared{}
+	s := &shared{holderOpt: sharedHolderOption()}
 	// the first shared value always contains model.Inner, the type for which
 	// tasks register different custom folders/unfolders
 	inner := []string{"Holder", "Nested", "Tagged", "Inner", "[]*Inner", "Holder", "Wide"}
@@ -267,7 +293,7 @@ func foreignMarker(s, kind string, own int) string {
 }
 
 func genOp(c *simkit.Choices, sh *shared, taskIdx int) *op {
-	kind := c.N(9)
+	kind := c.N(10)
 	switch kind {
 	case 0: // fold -> encoder -> writer
 		i := c.N(len(sh.vals))
@@ -459,6 +485,42 @@ func genOp(c *simkit.Choices, sh *shared, taskIdx int) *op {
 					return []interface{}{to}
 				})
 			}}
+	case 8: // ONE shared option value + a per-task custom unfolder for a type inside its cell
+		variant := taskIdx*2 + c.N(2)
+		s := model.GenText(c, 10)
+		opt := sh.holderOpt
+		return &op{desc: OpDesc{Kind: "shared-option-unfolder", Variant: variant},
+			check: func(r string, _ []interface{}) string {
+				if strings.Contains(r, "err=") {
+					return "refused although this unfolder registered a string unfolder for model.Inner next to the shared option"
+				}
+				if strings.Count(r, marker("u", variant)) != 3 {
+					return "result does not carry this unfolder's own marker " + marker("u", variant) + " in all 3 Inner positions"
+				}
+				if m := foreignMarker(r, "u", variant); m != "" {
+					return "result carries the marker of ANOTHER unfolder's custom unfolder: " + m
+				}
+				return ""
+			},
+			run: func(yield func()) []interface{} {
+				return guard(func() []interface{} {
+					var to model.Holder
+					u, err := gotype.NewUnfolder(&to, opt, gotype.Unfolders(innerUnfolder(variant)))
+					if err != nil {
+						return []interface{}{err}
+					}
+					t := yieldingTap(u, yield)
+					evs := []simkit.Ev{{K: simkit.KObjStart, I: -1}, {K: simkit.KKey, S: "a"}, {K: simkit.KStr, S: s},
+						{K: simkit.KKey, S: "l"}, {K: simkit.KArrStart, I: -1}, {K: simkit.KStr, S: s + "1"}, {K: simkit.KStr, S: s + "2"}, {K: simkit.KArrEnd},
+						{K: simkit.KObjEnd}}
+					for _, e := range evs {
+						if err := simkit.Emit(t, e, false); err != nil {
+							return []interface{}{err}
+						}
+					}
+					return []interface{}{to}
+				})
+			}}
 	case 7: // a corrupted / truncated document through a one-shot entry point: the error path
 		if len(sh.docs) == 0 {
 			return genOp(c, sh, taskIdx)
@@ -506,6 +568,21 @@ func genOp(c *simkit.Choices, sh *shared, taskIdx int) *op {
 		eo := c.N(8)
 		oo := model.OpsOpts{Extended: true, NonFinite: f != model.JSON, BigUint: true, Hints: true, MaxDepth: 3, Budget: 10, MaxStr: 30, DeepChains: true}
 		ops := model.GenOps(c, oo)
+		if c.Bool() {
+			// the same number as float32 and as its widening to float64: their
+			// shortest texts differ ("0.1" vs "0.10000000149011612")
+			fs := []float32{0.1, 0.2, 0.3, 3.14, 1e-7, 2.5e-5, 0.7}
+			pre := []model.Op{{Ev: simkit.Ev{K: simkit.KArrStart, I: -1}}}
+			for i, n := 0, 1+c.N(3); i < n; i++ {
+				f := fs[c.N(len(fs))]
+				if c.Bool() {
+					pre = append(pre, model.Op{Ev: simkit.Ev{K: simkit.KFloat32, U: uint64(math.Float32bits(f))}})
+				} else {
+					pre = append(pre, model.Op{Ev: simkit.Ev{K: simkit.KFloat64, U: math.Float64bits(float64(f))}})
+				}
+			}
+			ops = append(append(pre, ops...), model.Op{Ev: simkit.Ev{K: simkit.KArrEnd}})
+		}
 		if c.Bool() {
 			// two values that UBJSON writes through its high-precision path
 			big := []model.Op{{Ev: simkit.Ev{K: simkit.KArrStart, I: -1}},
